@@ -55,6 +55,7 @@ class SubstituteInterpretation(Interpretation):
         super().__init__("subs")
         self.subs = subs
         self.base_interpretation = base_interpretation
+        self.cls = None  # class of the node being rebuilt
         self.fresh = frozenset()  # names introduced by the node being rebuilt
         assert isinstance(subs, tuple)
         assert all(isinstance(v, Funsor) for k, v in subs)
@@ -68,8 +69,14 @@ class SubstituteInterpretation(Interpretation):
             expr = cls(*args)
             # Substitute only for names that the original node introduces, not
             # for names brought along by its already substituted arguments.
+            if cls is self.cls:
+                fresh = self.fresh
+            elif isinstance(expr, cls):
+                fresh = expr.fresh  # a helper leaf built by a metaclass
+            else:
+                fresh = frozenset()  # a helper compound that got evaluated
             fresh_subs = tuple(
-                (k, v) for k, v in self.subs if k in self.fresh and k in expr.fresh
+                (k, v) for k, v in self.subs if k in fresh and k in expr.fresh
             )
             if fresh_subs:
                 expr = instrument.debug_logged(expr.eager_subs)(fresh_subs)
@@ -104,6 +111,7 @@ def substitute(expr, subs):
             if isinstance(value, (tuple, frozenset)):  # TODO absorb this into interpret
                 env[key] = type(value)(args)
             else:
+                interp.cls = getattr(type(value), "__origin__", type(value))
                 interp.fresh = value.fresh
                 env[key] = type(value)(*args)
     return env[expr]
